@@ -148,6 +148,7 @@ impl<'a> Rt<'a> {
     /// Enter this host's runtime context. The paused (virtual) clock is only
     /// visible from inside it; anywhere else tokio's `Instant::now()` reads
     /// the real clock.
+    #[cfg(feature = "unstable-fs")]
     pub(crate) fn enter(&self) -> tokio::runtime::EnterGuard<'_> {
         self.tokio.enter()
     }
